@@ -92,7 +92,9 @@ class Skel:
             return self.child_value
         if k == 'some':
             pv = self.ev(t[1])
-            return Opt(True, pv if (isinstance(pv, Seq) or (isinstance(pv, int) and not isinstance(pv, bool))) else None)
+            # the payload is kept when it is part of the skeleton: a sequence, an integer, or the one float fact the skeleton knows
+            # (a delivered value of a positive-domain view is non-zero; a literal)
+            return Opt(True, pv if (isinstance(pv, Seq) or (isinstance(pv, int) and not isinstance(pv, bool)) or pv == NZ) else None)
         if k == 'none':
             return Opt(False)
         if k == 'is_some':
